@@ -263,8 +263,9 @@ def stream_large(ctx, n, target):
     ctx.count('large-nodes', len(M.b))
     M.check_table('C02:table', 'large manager')
     # redundant tests over separately computed equal children
-    for _ in range(12):
-        (f, tf) = rng.choice(pool[n:] or pool)
+    big = [x for x in pool if abs(x[0]) > 256]
+    for _ in range(40):
+        (f, tf) = rng.choice(big) if big and rng.random() < 0.8 else rng.choice(pool[n:] or pool)
         (z, tz) = rng.choice(pool[:n])
         ctx.case(('large', n, len(M.s.lines)), True)
         r1 = M.op('ite', z, f, f)
